@@ -41,6 +41,7 @@ type World struct {
 	acl     list.AclList
 	aclHead string
 	creator *objecttree.MockChangeCreator
+	keys    *accountdata.AccountKeys
 	inst    int
 	dbCount int
 }
@@ -49,6 +50,7 @@ func NewWorld() *World {
 	w := &World{}
 	keys, err := accountdata.NewRandom()
 	must(err)
+	w.keys = keys
 	w.acl, err = list.NewInMemoryDerivedAcl("spaceId", keys)
 	must(err)
 	w.aclHead = w.acl.Head().Id
@@ -102,21 +104,30 @@ func (w *World) Close() {
 
 // Inst is one naming instance: ids of the abstract DAG rendered with a unique fixed-width prefix.
 // String comparison of rendered ids of one instance = numeric comparison of the abstract ids.
+//
+// Changes created LOCALLY on a peer (AddContent) get a real CID as id; the instance remembers the abstract id it
+// stands for (cids / strs).  A CID ("bafy...") is greater than every rendered id ("0000012.00345") of the instance.
 type Inst struct {
 	w    *World
 	pref string
 	raws map[int]*treechangeproto.RawTreeChangeWithId
+	cids map[string]int
+	strs map[int]string
 }
 
 func (w *World) NewInst() *Inst {
 	w.inst++
 	w.dbCount++
-	return &Inst{w: w, pref: fmt.Sprintf("%07d.", w.inst), raws: map[int]*treechangeproto.RawTreeChangeWithId{}}
+	return &Inst{w: w, pref: fmt.Sprintf("%07d.", w.inst), raws: map[int]*treechangeproto.RawTreeChangeWithId{},
+		cids: map[string]int{}, strs: map[int]string{}}
 }
 
 func (in *Inst) S(id int) string {
 	if id == 0 {
 		return ""
+	}
+	if s, ok := in.strs[id]; ok {
+		return s
 	}
 	return in.pref + fmt.Sprintf("%05d", id)
 }
@@ -128,6 +139,9 @@ func (in *Inst) Ss(ids []int) []string {
 	return r
 }
 func (in *Inst) N(s string) int {
+	if v, ok := in.cids[s]; ok {
+		return v
+	}
 	if !strings.HasPrefix(s, in.pref) {
 		return 99999
 	}
@@ -279,4 +293,35 @@ func (p *Peer) AddRaw(dag map[int]Chg, batch []int, heads []int, path []int, pad
 		return "ERR", e
 	}
 	return modeName(r.Mode), nil
+}
+
+// AddContent creates a change LOCALLY through the object tree's own AddContent (it merges all current heads; its
+// storage order id is derived by the tree from lastIteratedHeadId).  absID is the abstract id the new change is
+// known by in the DAG; the returned Chg carries the parents / snapshot base the tree chose.
+func (p *Peer) AddContent(absID int, isSnap bool, pad int, ts int64) (c Chg, err error) {
+	defer func() {
+		if r := recover(); r != nil {
+			err = fmt.Errorf("PANIC %v", r)
+		}
+	}()
+	p.tree.Lock()
+	defer p.tree.Unlock()
+	data := make([]byte, pad)
+	res, e := p.tree.AddContent(ctx, objecttree.SignableChangeContent{
+		Data: data, Key: p.in.w.keys.SignKey, IsSnapshot: isSnap, ShouldBeEncrypted: false,
+		Timestamp: ts, DataType: "mock"})
+	if e != nil {
+		return c, e
+	}
+	if len(res.Added) != 1 {
+		return c, fmt.Errorf("AddContent added %d changes", len(res.Added))
+	}
+	sc := res.Added[0]
+	prev := p.in.Ns(sc.PrevIds)
+	sort.Ints(prev)
+	snap := p.in.N(sc.SnapshotId)
+	p.in.cids[sc.Id] = absID
+	p.in.strs[absID] = sc.Id
+	p.in.raws[absID] = &treechangeproto.RawTreeChangeWithId{RawChange: append([]byte(nil), sc.RawChange...), Id: sc.Id}
+	return Chg{ID: absID, Prev: prev, Snap: snap, IsSnap: isSnap, Pad: pad}, nil
 }
